@@ -84,14 +84,14 @@ func (d *Dest) Open(context.Context, pconnector.DestinationOpenRequest) (pconnec
 		kind = "dlq"
 	}
 	if d.Cfg.OpenErr != "" {
-		d.W.Log.Add("Open", "conn", d.Cfg.ID, "kind", kind, "ok", false)
+		d.W.Log.Add("Open", "conn", d.Cfg.ID, "key", d.Cfg.ID, "kind", kind, "ok", false)
 		return pconnector.DestinationOpenResponse{}, toErr(d.Cfg.OpenErr)
 	}
 	d.run++
 	d.opens++
 	d.pending = nil
 	d.grants = nil
-	d.W.Log.Add("Open", "conn", d.Cfg.ID, "kind", kind, "ok", true, "run", d.run)
+	d.W.Log.Add("Open", "conn", d.Cfg.ID, "key", d.Cfg.ID, "kind", kind, "ok", true, "run", d.run)
 	return pconnector.DestinationOpenResponse{}, nil
 }
 
@@ -333,7 +333,7 @@ func (d *Dest) Teardown(context.Context, pconnector.DestinationTeardownRequest) 
 	if d.IsDLQ {
 		kind = "dlq"
 	}
-	d.W.Log.Add("Teardown", "conn", d.Cfg.ID, "kind", kind, "run", d.run)
+	d.W.Log.Add("Teardown", "conn", d.Cfg.ID, "key", d.Cfg.ID, "kind", kind, "run", d.run)
 	d.cond.Broadcast()
 	return pconnector.DestinationTeardownResponse{}, toErr(d.Cfg.TeardownErr)
 }
